@@ -234,6 +234,7 @@ func TestVerifC07Addon(t *testing.T) {
 func TestVerifC34Addon(t *testing.T) {
 	name := vdecName()
 	rep := vNewReport("C34", fmt.Sprintf("every input of the storage harness (arbitrary bytes, mutated segments, broker-written segments with hostile record bodies, crafted index files) run through the %s processor's real decodeSegment/parseIndex under recover(); oracle: no panic, bytes allocated (runtime.MemStats.TotalAlloc delta) <= %d*len(input)+%d, no call slower than 5s", name, vdAllocC, vdAllocSlack))
+	rep.CaseFiles = []string{} // partial reports written before Cases() must stay well-formed
 	var coq, jsons []string
 	_, _, idxSupported := vdecParseIndex(nil)
 	for _, in := range vdLoadInputs(t, "c34_inputs.json") {
